@@ -97,3 +97,9 @@ Theorem keyed_cache_sound :
     keyed_ok K V compute cache -> keyed_run K V keqb compute cache ks = map compute ks.
 Proof. exact Lemmas.keyed_cache_sound. Qed.
 Print Assumptions keyed_cache_sound.
+
+(* The cache key of HistogramLayerState.update_histogram in the current source: id(x_att), x_log, hist_x_min, hist_x_max,
+   hist_n_bin (so two attributes with the same label do not share an entry). *)
+Theorem histogram_key_fields : hist_key_fields = [1; 2; 3; 4; 5].
+Proof. exact Lemmas.histogram_key_fields. Qed.
+Print Assumptions histogram_key_fields.
